@@ -578,14 +578,31 @@ class Verdict:
     def _fold_verdict(self, eng, st, op, x, y, truth, b):
         """`map.iter().fold(0, |n, (m, &owned)| n + m.strong().saturating_sub(owned)) > 0`: the number of strong references
         the group does not hold itself; the group is orphaned iff it is zero."""
-        if not (x[0] == "call" and x[2] == "core::iter::Iterator::fold" and len(x[3]) == 3 and is_const(y, 0)):
+        is_fold = x[0] == "call" and x[2] == "core::iter::Iterator::fold" and len(x[3]) == 3
+        is_sum = x[0] == "call" and x[2] == "core::iter::Iterator::sum" and len(x[3]) == 1
+        if x[0] == "field" and x[2] in ("0", 0) and x[1][0] == "variant" and x[1][2] == "Some" and x[1][1][0] == "call" and x[1][1][2] == "core::iter::Iterator::max" and len(x[1][1][3]) == 1:
+            # `iter().map(|(m, &owned)| m.strong().saturating_sub(owned)).max()` matched against `Some(0)`: the largest
+            # number of outside references any member has; zero for all of them iff it is zero
+            x = x[1][1]
+            is_sum = True
+        if not ((is_fold or is_sum) and is_const(y, 0)):
             return None
         src = iter_source(x[3][0])
-        if src is None or src[0] != "map" or src[-1]:
+        if src is None or src[0] != "map":
             return None
         M = src[1]
         acc, elem = ("param", 2), ("param", 3)
-        cl = self.closures.run(x[3][2], params={2: acc, 3: elem})
+        if is_fold:
+            if src[-1]:
+                return None
+            cl = self.closures.run(x[3][2], params={2: acc, 3: elem})
+        else:
+            # `iter().map(|(m, &owned)| m.strong().saturating_sub(owned)).sum()`: the same sum, one term per member
+            if len(src[-1]) != 1 or src[-1][0][0] != "map" or not src[-1][0][1]:
+                return None
+            cl = self.closures.run(src[-1][0][1][0], params={2: elem})
+            if cl is not None:
+                cl = dict(cl, returns=[("bin", "Add", acc, r) for r in cl["returns"]])
         if cl is None:
             return None
         reads_strong = any(mentions(r, lambda e: counter_read(e) is not None and counter_read(e)[2] == "strong") for r in cl["returns"])
@@ -594,7 +611,7 @@ class Verdict:
         self.verdict_sites.add(b)
         eng.obl("GATE-6", "verdict", b)
         good = False
-        if len(cl["returns"]) == 1 and not cl["effects"] and is_const(x[3][1], 0):
+        if len(cl["returns"]) == 1 and not cl["effects"] and (is_sum or is_const(x[3][1], 0)):
             r = cl["returns"][0]
             if r[0] == "field" and r[1][0] == "bin" and r[2] in ("0", 0):
                 r = r[1]
